@@ -26,7 +26,8 @@ THEOREMS['C05'] = ['FB.run_refines', 'FB.replay_sound', 'FB.C13_read_replay', 'F
                    'FB.nested_second_run', 'FB.replay_run', 'FB.run_keeps', 'FB.run_absent', 'FB.n_first',
                    'FB.C05_nested_rebuild', 'FB.cachedIn_nested', 'FB.nested_ok_run', 'FB.nested_first_facts', 'FB.outputs_eq_targetsDeep', 'FB.run_keys', 'FB.run_dirs_kept', 'FB.mkdirs_dirsToMake', 'FB.replay_runF',
                    'FB.nested_rerun', 'FB.C05_nested_rerun', 'FB.f_first', 'FB.g_first',
-                   'FB.run_argsRefl', 'FB.C05_nested_rebuild_wf', 'FB.C05_nested_rebuild_inputs']
+                   'FB.run_argsRefl', 'FB.C05_nested_rebuild_wf', 'FB.C05_nested_rebuild_inputs',
+                   'FB.C05_rebuild_with_failures', 'FB.nested_runF', 'FB.run_keysF', 'FB.cachedIn_allF', 'FB.outputs_eq_okT', 'FB.run_claims_targets', 'FB.g_first_sets']
 THEOREMS['C06'] = ['FB.C06_changed_invalidates', 'FB.C06_changed_invalidatesL', 'FB.C06_lookup_tests_version',
                    'FB.C06_equal_versions_pass', 'FB.C06_unrelated_versions_stay_cached', 'FB.nested_second_run']
 THEOREMS['C08'] = ['FB.C08_dup_file_rejected', 'FB.C08_dup_file_no_effect', 'FB.C08_dup_sub_no_effect',
@@ -1112,7 +1113,8 @@ def explore_threads(prop, tier, rep, names, bound, cap):
 
 C09_SCENARIOS = ['shared_new_dir', 'shared_new_dir_deep', 'sibling_dirs', 'mixed_depth', 'one_fails', 'both_fail', 'fail_alone_in_dir',
                  'stale_dir', 'stale_dir_queries', 'queries_vs_build', 'subbuilds', 'three_threads', 'dup_file', 'dup_sub',
-                 'dup_sub_cached', 'dup_sub_json_equal', 'rebuild_two_then_fail', 'build_two_then_fail', 'overwrite_foreign_then_fail']
+                 'dup_sub_cached', 'dup_sub_json_equal', 'rebuild_two_then_fail', 'build_two_then_fail', 'overwrite_foreign_then_fail',
+                 'hash_two_inputs', 'hash_two_outputs']
 
 
 def check_C09(tier):
@@ -1210,7 +1212,9 @@ def c14_jobs(tier, ds, per_family=(12, 300), n_random=(150, 6000), salt=14):
                 continue
             n = ro['fault']['injectable_calls']
             ks = list(range(1, n + 1))
-            if tier == 'quick' and len(ks) > 2:
+            # re-applying a cached subtree directory by directory: every position matters and there are few of them
+            exhaustive = 'scen_nested_reuse' in str(c.get('seed', '')) and b >= 1 and n <= 16
+            if tier == 'quick' and len(ks) > 2 and not exhaustive:
                 ks = rng.sample(ks, 2)
             for k in ks:
                 j = json.loads(json.dumps(c))
